@@ -15,7 +15,7 @@ class LibMixin:
             self.rules['std::min/max'] += 1
             if self.has_side_effects(args[0]) or self.has_side_effects(args[1]): raise Unsupported('side effect in std::min/max argument')
             return 'CC_%s(%s, %s)' % (name.upper(), self.expr(args[0]), self.expr(args[1]))
-        if name in ('size', 'ssize', 'empty', 'begin', 'end', 'cbegin', 'cend', 'data') and len(args) == 1:
+        if name in ('size', 'ssize', 'empty', 'begin', 'end', 'cbegin', 'cend', 'data', 'rbegin', 'rend') and len(args) == 1:
             at = self.etype(args[0])
             if name == 'empty' and at.kind == 'rec':
                 # std::empty(x) -> x.empty()
@@ -50,6 +50,26 @@ class LibMixin:
             return self.cont_call(ct, 'reverse', cont)
         if name == 'abs' and len(args) == 1:
             a = self.expr(args[0]); return '((%s) < 0 ? -(%s) : (%s))' % (a, a, a)
+        if name in self.u.get('lib_stubs', ['stoi', 'stol', 'to_string']):
+            # library function kept as an assumed-contract stub (declared in the unit description)
+            atxt = []; ptxt = []; suffix = []
+            for i, a in enumerate(args):
+                if a.get('kind') == 'CXXDefaultArgExpr': continue
+                at = self.tyq(a['type']); suffix.append(cident(at.c))
+                if self.big(at) or at.kind == 'opaque':
+                    core = self.skip(a)
+                    if self.is_lv(core): atxt.append(self.addr(self.expr(core)))
+                    else:
+                        tn = self.tmp('arg'); self.pre.append('%s %s = %s;' % (at.c, tn, self.expr(a))); atxt.append('&' + tn)
+                    ptxt.append('const %s* a%d' % (at.c, i))
+                else:
+                    atxt.append(self.expr(a, rvalue=True)); ptxt.append('%s a%d' % (at.c, i))
+            rt = self.tyq(n['type'])
+            cn = 'std_%s%s' % (cident(name), ('__' + '_'.join(suffix)) if suffix else '')
+            self.autostubs.setdefault(cn, '%s %s(%s);' % (rt.c, cn, ', '.join(ptxt) or 'void'))
+            self.fninfo.setdefault(cn, {'qname': 'std::' + name, 'stub': True})
+            self.rules['library-stub-call'] += 1
+            return '%s(%s)' % (cn, ', '.join(atxt))
         return None
 
     # ------------------------------------------------------------ methods on mapped types
@@ -93,6 +113,8 @@ class LibMixin:
                 return self.vec_lvalue(t, o, m, args, n)
             if m == 'begin' or m == 'cbegin': return '((size_t)0)'
             if m == 'end' or m == 'cend': return '%s.size' % o
+            if m in ('rbegin', 'crbegin'): return '%s.size' % o      # reverse iterator = index one past the element
+            if m in ('rend', 'crend'): return '((size_t)0)'
             if m == 'erase' and len(args) == 1:
                 self.rules['vector::erase(iterator)'] += 1
                 return self.cont_call(t, 'erase_at', o, [self.expr(args[0])])
@@ -154,7 +176,7 @@ class LibMixin:
         if c.get('kind') in ('CallExpr', 'CXXMemberCallExpr'):
             try: d, r = self.callee_decl(c)
             except Unsupported: return None
-            if r.get('name') in ('begin', 'end', 'cbegin', 'cend'):
+            if r.get('name') in ('begin', 'end', 'cbegin', 'cend', 'rbegin', 'rend', 'crbegin', 'crend'):
                 if c['kind'] == 'CallExpr': return self.etype(c['inner'][1])
                 me = self.skip(c['inner'][0]); return self.etype(me['inner'][0])
         if c.get('kind') == 'DeclRefExpr':
@@ -255,6 +277,15 @@ class LibMixin:
                 ct = t.elem
                 e = self.chk('%s < %s.size' % (o, cont), 'dereference of end()/invalid iterator (UB)', '%s.data[%s]' % (cont, o))
                 return e if op == '*' else '(&%s)' % e
+        if t.kind == 'riter':
+            o = self.expr(args[0])
+            if op in ('*', '->'):
+                cont = self.iter_container(args[0])
+                if cont is None: raise Unsupported('reverse iterator dereference with unknown container at ' + self.where(n))
+                e = self.chk('%s >= 1 && %s <= %s.size' % (o, o, cont), 'dereference of rend()/invalid reverse iterator (UB)', '%s.data[%s - 1]' % (cont, o))
+                return e if op == '*' else '(&%s)' % e
+            if op == '++': return '(--%s)' % o if len(args) == 1 else '(%s--)' % o
+            if op in ('==', '!='): return '(%s %s %s)' % (o, op, self.expr(args[1]))
         if t.kind in ('vec',) and op == '=':
             return '(%s = %s)' % (self.expr(args[0]), self.expr(args[1]))
         return None
@@ -269,7 +300,7 @@ class LibMixin:
                 d, r = self.callee_decl(c)
             except Unsupported:
                 return None
-            if r.get('name') in ('begin', 'end', 'cbegin', 'cend'):
+            if r.get('name') in ('begin', 'end', 'cbegin', 'cend', 'rbegin', 'rend', 'crbegin', 'crend'):
                 if c['kind'] == 'CallExpr': return self.expr(c['inner'][1])
                 me = self.skip(c['inner'][0]); return self.obj_text(me['inner'][0], me.get('isArrow'))
         return None
